@@ -194,7 +194,12 @@ fn sub_line(tier: Tier, rel: bool, len4: bool) -> Sub {
         if quick_rel { "through Dwarf::from" } else { "each through Dwarf::from and both stepwise routes" },
         if rel { "release (debug assertions and overflow checks off: silent wrong results instead of panics)" } else { "chk (overflow checks and debug assertions on)" }
     );
-    let apis: Vec<Api> = if quick_rel { vec![Api::From] } else { APIS.to_vec() };
+    let mut apis: Vec<Api> = if quick_rel { vec![Api::From] } else { APIS.to_vec() };
+    if !rel && !len4 {
+        // the stepwise API may re-encode the program in another version (4 <-> 5 changes the file
+        // and directory numbering); re-encoding in the source's own version is the identity route
+        apis.extend_from_slice(&[Api::Reenc(2), Api::Reenc(4), Api::Reenc(5)]);
+    }
     Sub::new(if len4 { "line-programs-len4" } else if rel { "line-programs-rel" } else { "line-programs" }, len, &bound, move |ctx, i| {
         let mut x = Mix(i);
         let seq = space::seq_decode(NSYM, minlen, maxlen, x.take(nseq));
